@@ -1,6 +1,7 @@
 package c06
 
 import (
+	"bytes"
 	"crypto/ecdsa"
 	"crypto/elliptic"
 	"fmt"
@@ -8,36 +9,55 @@ import (
 	"math/big"
 
 	"github.com/emmansun/gmsm/sm2"
+	"github.com/emmansun/gmsm/smx509"
 
 	"verifh/mon"
-	"verifh/ref/ec"
 	"verifh/ref/sm2sig"
-	"verifh/ref/sm3"
+	"verifh/ref/wec"
 )
 
 // The sm2 package signs and verifies "regardless it's SM2 curve or not": any
 // curve other than the sm2ec.P256() singleton takes the math/big path of
-// sm2_legacy.go. Two such curves are monitored:
+// sm2_legacy.go. Every kind of curve a caller can hand to that path is monitored:
 //
-//	generic-sm2-copy  the SM2 numbers under another pointer: the full reference applies
-//	nist-p256         decided with the standard library's P-256 arithmetic (trusted base)
-//	                  and the GB/T 32918.2 equations written out below
-
+//	nist-p224/p256/p384/p521  the standard library's NIST curves (P-256 brings its own CombinedMult and Inverse)
+//	generic-sm2-copy          the SM2 numbers under another pointer (crypto/elliptic's generic arithmetic)
+//	secp192r1 / secp160r1     custom elliptic.CurveParams; the order of secp160r1 has 161 bits, one more than the
+//	                          field, and is not a whole number of octets (like the 521 bits of P-521)
+//
+// All verdicts come from verifh/ref/wec: GB/T 32918.2 written over affine big-integer arithmetic for the NUMBERS
+// of the curve; neither the library nor crypto/elliptic takes part in a verdict.
 type lcurve struct {
-	name  string
-	c     elliptic.Curve
-	isSM2 bool
+	name string
+	c    elliptic.Curve
+	w    *wec.Curve
 }
 
-var lcurvesAll = []lcurve{{"nist-p256", elliptic.P256(), false}, {"generic-sm2-copy", genericSM2, true}, {"nist-p384", elliptic.P384(), false}}
+var lcurvesAll = []lcurve{
+	{"nist-p256", elliptic.P256(), wec.P256},
+	{"generic-sm2-copy", genericSM2, wec.SM2},
+	{"nist-p384", elliptic.P384(), wec.P384},
+	{"nist-p224", elliptic.P224(), wec.P224},
+	{"nist-p521", elliptic.P521(), wec.P521},
+	{"secp192r1-custom", wec.Secp192r1.Params(), wec.Secp192r1},
+	{"secp160r1-custom", wec.Secp160r1.Params(), wec.Secp160r1},
+}
 
-// usableCurves drops NIST P-256 when the standard library's own P-256 order
+func lselfTest(x *mon.Ctx) {
+	selfTest(x)
+	if err := wec.SelfTest(); err != nil {
+		x.HarnessError("%v", err)
+	}
+}
+
+// signableCurves drops NIST P-256 when the standard library's own P-256 order
 // inversion is unusable in this build: with -tags purego on amd64 Go 1.23 still
 // compiles crypto/elliptic's p256Curve.Inverse, whose nistec back end is then a
 // stub that fails, so Inverse panics for every argument ("nistec rejected
 // normalized scalar"). That is a property of the toolchain, not of the library
-// (its own NIST P-256 tests carry the build tag !purego for this reason).
-func usableCurves(x *mon.Ctx) []lcurve {
+// (its own NIST P-256 tests carry the build tag !purego for this reason). Only
+// SIGNING needs the inversion: verification on P-256 is monitored in every build.
+func signableCurves(x *mon.Ctx) []lcurve {
 	out := lcurvesAll
 	if inv, ok := elliptic.P256().(interface{ Inverse(*big.Int) *big.Int }); ok {
 		if p := mon.Try(func() { inv.Inverse(big64(2)) }); p != nil {
@@ -48,125 +68,126 @@ func usableCurves(x *mon.Ctx) []lcurve {
 	return out
 }
 
-// digestToIntFor takes the leftmost order-size bytes of the digest (all curves
-// used here have an order whose bit length is a multiple of 8).
-func digestToIntFor(cv elliptic.Curve, digest []byte) *big.Int {
-	if l := (cv.Params().N.BitLen() + 7) / 8; len(digest) > l {
-		digest = digest[:l]
-	}
-	return new(big.Int).SetBytes(digest)
-}
-
 func fill(v *big.Int, l int) []byte { return v.FillBytes(make([]byte, l)) }
 
-// zaGeneric is ZA of GB/T 32918.2 5.5 with the parameters of the given curve (a = p-3).
-func zaGeneric(cp *elliptic.CurveParams, X, Y *big.Int, id []byte) []byte {
-	l := (cp.BitSize + 7) / 8
-	entl := len(id) * 8
-	buf := []byte{byte(entl >> 8), byte(entl)}
-	buf = append(buf, id...)
-	for _, v := range []*big.Int{sub(cp.P, big64(3)), cp.B, cp.Gx, cp.Gy, X, Y} {
-		buf = append(buf, fill(v, l)...)
+// kBlock is the block of random bytes from which the legacy path draws the nonce k (FIPS 186-4 B.5.2 as
+// crypto/ecdsa wrote it: as many octets as the order has, the surplus high bits of the FIRST octet shifted out).
+// The shifted-out bits are filled from fillBits (they must not matter).
+func kBlock(w *wec.Curve, k *big.Int, fillBits byte) []byte {
+	b := fill(k, w.OrderLen())
+	if excess := uint(w.OrderLen()*8 - w.OrderBits()); excess > 0 {
+		b[0] = b[0]<<excess | fillBits&(1<<excess-1)
 	}
-	d := sm3.Sum(buf)
-	return d[:]
+	return b
 }
 
-// lverifyRS is the oracle for an integer pair on a legacy curve.
-func lverifyRS(lc lcurve, X, Y *big.Int, e, r, s *big.Int) sm2sig.Reason {
-	if lc.isSM2 {
-		return sm2sig.VerifyRS(ec.Point{X: X, Y: Y}, e, r, s)
-	}
-	N := lc.c.Params().N
-	if r.Sign() <= 0 || s.Sign() <= 0 || r.Cmp(N) >= 0 || s.Cmp(N) >= 0 {
-		return sm2sig.BadRange
-	}
-	t := add(r, s)
-	t.Mod(t, N)
-	if t.Sign() == 0 {
-		return sm2sig.BadT
-	}
-	x1, y1 := lc.c.ScalarBaseMult(s.Bytes())
-	x2, y2 := lc.c.ScalarMult(X, Y, t.Bytes())
-	var x *big.Int
-	if x1.Cmp(x2) == 0 {
-		if y1.Cmp(y2) != 0 {
-			return sm2sig.BadPoint // [s]G = -[t]P
-		}
-		x, _ = lc.c.Double(x1, y1)
-	} else {
-		x, _ = lc.c.Add(x1, y1, x2, y2)
-	}
-	v := add(e, x)
-	v.Mod(v, N)
-	if v.Cmp(r) != 0 {
-		return sm2sig.BadEq
-	}
-	return sm2sig.Accept
+// lkey is a key on a legacy curve: the object the library gets and the reference's view of it.
+type lkey struct {
+	lc   lcurve
+	d    *big.Int // nil: verification key only
+	P    wec.Point
+	pub  *ecdsa.PublicKey
+	priv *ecdsa.PrivateKey
+	cert *smx509.Certificate
 }
 
-func lverify(lc lcurve, X, Y *big.Int, digest, sig []byte) sm2sig.Reason {
-	r, s, err := sm2sig.ParseDER(sig)
-	if err != nil {
-		return sm2sig.BadDER
-	}
-	return lverifyRS(lc, X, Y, digestToIntFor(lc.c, digest), r, s)
+func lpubKey(lc lcurve, P wec.Point) *lkey {
+	k := &lkey{lc: lc, P: P}
+	k.pub = &ecdsa.PublicKey{Curve: lc.c, X: new(big.Int).Set(P.X), Y: new(big.Int).Set(P.Y)}
+	k.cert = &smx509.Certificate{PublicKey: k.pub, PublicKeyAlgorithm: smx509.ECDSA}
+	return k
 }
 
+// lprivKey builds the key pair of the scalar d with the reference's [d]G.
+func lprivKey(lc lcurve, d *big.Int) *lkey {
+	k := lpubKey(lc, lc.w.BaseMul(d))
+	k.d = d
+	k.priv = &ecdsa.PrivateKey{PublicKey: *k.pub, D: new(big.Int).Set(d)}
+	k.pub = &k.priv.PublicKey
+	k.cert = &smx509.Certificate{PublicKey: k.pub, PublicKeyAlgorithm: smx509.ECDSA}
+	return k
+}
+
+// lin is what is offered to the verifying entry points on a legacy curve.
 type lin struct {
-	lc     lcurve
-	pub    *ecdsa.PublicKey
-	d      *big.Int
+	k      *lkey
 	e      []byte
 	hasMsg bool
 	uid    []byte
 	msg    []byte
 }
 
+// lverdicts offers sig to every verifying entry point that reaches the legacy path.
+func lverdicts(c *mon.Case, in lin, sig []byte) []verdict {
+	var out []verdict
+	call := func(name string, f func() bool) {
+		var v bool
+		if c.Call(name+" on "+in.k.lc.name, func() { v = f() }) {
+			out = append(out, verdict{name, v})
+		}
+		c.Event("lib_verify_calls", 1)
+	}
+	pub := in.k.pub
+	call("VerifyASN1", func() bool { return sm2.VerifyASN1(pub, in.e, sig) })
+	if len(in.e) == 32 {
+		call("smx509.CheckSignatureWithDigest", func() bool {
+			return in.k.cert.CheckSignatureWithDigest(smx509.SM2WithSM3, in.e, sig) == nil
+		})
+	}
+	if in.hasMsg {
+		call("VerifyASN1WithSM2", func() bool { return sm2.VerifyASN1WithSM2(pub, in.uid, in.msg, sig) })
+		if isDefaultUID(in.uid) {
+			call("smx509.CheckSignature", func() bool {
+				return in.k.cert.CheckSignature(smx509.SM2WithSM3, in.msg, sig) == nil
+			})
+		}
+	}
+	// the big.Int entry points take what a strict reader extracts
+	if r, s, err := sm2sig.ParseDER(sig); err == nil {
+		call("Verify", func() bool { return sm2.Verify(pub, in.e, r, s) })
+		if in.hasMsg {
+			call("VerifyWithSM2", func() bool { return sm2.VerifyWithSM2(pub, in.uid, in.msg, r, s) })
+		}
+	}
+	return out
+}
+
 // ljudge compares the library's legacy-path verdicts with the oracle's.
 func ljudge(c *mon.Case, label string, in lin, sig []byte) sm2sig.Reason {
-	want := lverify(in.lc, in.pub.X, in.pub.Y, in.e, sig)
+	want := in.k.lc.w.Verify(in.k.P, in.e, sig)
 	c.Event("candidates", 1)
 	c.Event("ref_"+string(want), 1)
-	type ent struct {
-		name string
-		f    func() bool
-	}
-	ents := []ent{{"VerifyASN1", func() bool { return sm2.VerifyASN1(in.pub, in.e, sig) }}}
-	if in.hasMsg {
-		ents = append(ents, ent{"VerifyASN1WithSM2", func() bool { return sm2.VerifyASN1WithSM2(in.pub, in.uid, in.msg, sig) }})
-	}
-	if r, s, err := sm2sig.ParseDER(sig); err == nil {
-		ents = append(ents, ent{"Verify", func() bool { return sm2.Verify(in.pub, in.e, r, s) }})
-		if in.hasMsg {
-			ents = append(ents, ent{"VerifyWithSM2", func() bool { return sm2.VerifyWithSM2(in.pub, in.uid, in.msg, r, s) }})
-		}
-	}
-	for _, en := range ents {
-		var got bool
-		if !c.Call(en.name+" on "+in.lc.name, func() { got = en.f() }) {
-			continue
-		}
+	for _, v := range lverdicts(c, in, sig) {
 		c.Event("compare", 1)
-		c.Event("lib_verify_calls", 1)
-		if got == (want == sm2sig.Accept) {
+		if v.ok == (want == sm2sig.Accept) {
 			continue
 		}
 		kind, verb := "accept", "accepts"
-		if !got {
+		if !v.ok {
 			kind, verb = "reject", "rejects"
 		}
 		c.Detail("candidate", sig)
 		c.Detail("digest", in.e)
-		c.Detail("pubkey", elliptic.Marshal(in.lc.c, in.pub.X, in.pub.Y))
-		msg := fmt.Sprintf("%s on %s: %s %s the candidate, the oracle says %s; sig=%s digest=%x", label, in.lc.name, en.name, verb, want, shortHex(sig), in.e)
+		c.Detail("pubkey", in.k.lc.w.Marshal(in.k.P))
+		if in.hasMsg {
+			c.Detail("uid", in.uid)
+			c.Detail("msg", in.msg)
+		}
+		msg := fmt.Sprintf("%s on %s: %s %s the candidate, the oracle says %s; sig=%s digest=%x", label, in.k.lc.name, v.entry, verb, want, shortHex(sig), in.e)
 		c.Fail(kind, "%s", msg)
 	}
 	return want
 }
 
+// ljudgeRS offers an integer pair, canonically encoded, to the byte entry points and, as integers, to the big.Int
+// entry points (lverdicts hands them what a strict reader extracts: the very integers).
 func ljudgeRS(c *mon.Case, label string, in lin, r, s *big.Int) sm2sig.Reason {
-	return ljudge(c, label, in, sm2sig.EncodeDER(r, s))
+	sig := sm2sig.EncodeDER(r, s)
+	if pr, ps, err := sm2sig.ParseDER(sig); err != nil || pr.Cmp(r) != 0 || ps.Cmp(s) != 0 {
+		c.Inconclusive("reference encoder/reader do not round-trip (%s,%s)", r.Text(16), s.Text(16))
+		return sm2sig.BadDER
+	}
+	return ljudge(c, label, in, sig)
 }
 
 type lsigner struct {
@@ -193,30 +214,47 @@ var lsigners = []lsigner{
 	}},
 }
 
+// how the first random block(s) of a legacy signing call are planted: the three retry conditions of the standard
+// need a digest of our choosing; rejected blocks (0, values in [n, 2^bitlen(n)) ) and the extreme nonces do not
+var lplantsDigest = []string{"none", "r=0", "r+k=n", "s=0", "first>=n", "k=n-1", "first=0", "k=1"}
+var lplantsMsg = []string{"none", "first>=n", "k=1", "first=0", "k=n-1"}
+
 func legacy(x *mon.Ctx) {
-	selfTest(x)
-	lcurves := usableCurves(x)
-	total := x.Scale(60, 600)
-	for i := 0; i < total; i++ {
-		lc := lcurves[i%len(lcurves)]
-		sg := lsigners[(i/len(lcurves))%len(lsigners)]
-		dk := []string{"rand", "1", "n-2", "2", "rand", "small"}[(i/10)%6]
-		plant := "none"
-		if !sg.msgMode { // the retry conditions can be forced when the digest is ours to choose
-			plant = []string{"none", "r=0", "r+k=n", "s=0"}[(i/len(lcurves)/len(lsigners))%4]
+	lselfTest(x)
+	lcurves := signableCurves(x)
+	dks := []string{"rand", "1", "n-2", "2", "rand", "small"}
+	i := 0
+	for rep := 0; rep < x.Scale(1, 8); rep++ {
+		for _, lc := range lcurves {
+			for si, sg := range lsigners {
+				pls := lplantsMsg
+				if !sg.msgMode {
+					pls = lplantsDigest
+				}
+				for pi, plant := range pls {
+					i++
+					// quick: the unplanted case of every signer on every curve; of the planted ones the three retry
+					// conditions always, the others in rotation
+					if !x.Thorough() && pi > 0 && !(plant == "r=0" || plant == "r+k=n" || plant == "s=0") && (pi+si+int(x.Seed%3))%3 != 0 {
+						continue
+					}
+					dk := dks[(i+rep)%len(dks)]
+					c := x.Begin("legacy rep=%d curve=%s signer=%s d=%s plant=%s", rep, lc.name, sg.name, dk, plant)
+					if c == nil {
+						continue
+					}
+					c.Class("legacy/%s/%s/d=%s/plant=%s", lc.name, sg.name, dk, plant)
+					legacyCase(c, lc, sg, dk, plant)
+					c.End()
+				}
+			}
 		}
-		c := x.Begin("legacy i=%d curve=%s signer=%s d=%s plant=%s", i, lc.name, sg.name, dk, plant)
-		if c == nil {
-			continue
-		}
-		c.Class("legacy/%s/%s/d=%s/plant=%s", lc.name, sg.name, dk, plant)
-		legacyCase(c, lc, sg, dk, plant)
-		c.End()
 	}
 }
 
 func legacyCase(c *mon.Case, lc lcurve, sg lsigner, dk, plant string) {
-	N := lc.c.Params().N
+	w := lc.w
+	N := w.N
 	var d *big.Int
 	switch dk {
 	case "1":
@@ -230,46 +268,67 @@ func legacyCase(c *mon.Case, lc lcurve, sg lsigner, dk, plant string) {
 	default:
 		d = add(c.R.BigBelow(sub(N, two)), one)
 	}
-	k := &ecdsa.PrivateKey{D: d}
-	k.Curve = lc.c
-	if lc.isSM2 {
-		p := ec.BaseMul(d)
-		k.X, k.Y = p.X, p.Y
-	} else {
-		k.X, k.Y = lc.c.ScalarBaseMult(d.Bytes())
-	}
+	k := lprivKey(lc, d)
 	uid := [][]byte{nil, c.R.Bytes(16), c.R.Bytes(c.R.Range(1, 60))}[c.R.Intn(3)]
 	msg := c.R.Bytes(c.R.Intn(200))
 	uid, msg = adjacent(c.R, uid, msg)
-	e := sm2sig.E(zaGeneric(lc.c.Params(), k.X, k.Y, effUID(uid)), msg)
-	if lc.isSM2 { // the generic ZA must agree with the reference on the SM2 numbers
-		if e2, _ := sm2sig.MessageDigest(k.X, k.Y, effUID(uid), msg); string(e2) != string(e) {
+	e, err := w.MessageDigest(k.P, effUID(uid), msg)
+	if err != nil {
+		c.Inconclusive("reference digest: %v", err)
+		return
+	}
+	if w == wec.SM2 { // the generic ZA must agree with the SM2 reference on the SM2 numbers
+		if e2, _ := sm2sig.MessageDigest(k.P.X, k.P.Y, effUID(uid), msg); !bytes.Equal(e2, e) {
 			c.Inconclusive("generic ZA differs from the reference ZA")
 			return
 		}
 	}
 	var got []byte
-	var err error
-	if c.Call("CalculateSM2Hash on "+lc.name, func() { got, err = sm2.CalculateSM2Hash(&k.PublicKey, msg, uid) }) {
+	if c.Call("CalculateSM2Hash on "+lc.name, func() { got, err = sm2.CalculateSM2Hash(k.pub, msg, uid) }) {
 		if err != nil {
 			c.Fail("reject", "CalculateSM2Hash on %s: %v", lc.name, err)
 		} else {
 			c.Eq("CalculateSM2Hash on "+lc.name, got, e)
 		}
 	}
-	in := lin{lc: lc, pub: &k.PublicKey, d: d, e: e, hasMsg: true, uid: uid, msg: msg}
+	in := lin{k: k, e: e, hasMsg: true, uid: uid, msg: msg}
+	if !sg.msgMode && c.R.Intn(3) == 0 {
+		// the digest entry points also take digests of the order's length (and cut longer ones to it)
+		e = c.R.Bytes(w.OrderLen() + c.R.Intn(2)*c.R.Intn(9))
+		in = lin{k: k, e: e}
+	}
 	rd := newScript(c)
-	if plant != "none" {
-		// first block k1 with the digest that makes the standard discard it, then k2
-		olen := (N.BitLen() + 7) / 8
-		k1 := add(c.R.BigBelow(sub(N, one)), one)
-		k2 := add(c.R.BigBelow(sub(N, one)), one)
-		var x1 *big.Int
-		if lc.isSM2 {
-			x1 = ec.BaseMul(k1).X
-		} else {
-			x1, _ = lc.c.ScalarBaseMult(k1.Bytes())
+	nblocks := 1
+	olen := w.OrderLen()
+	k1 := add(c.R.BigBelow(sub(N, one)), one)
+	k2 := add(c.R.BigBelow(sub(N, one)), one)
+	kUsed := k1
+	fb := byte(c.R.Intn(256))
+	switch plant {
+	case "none":
+		rd = newScript(c, kBlock(w, k1, fb))
+	case "k=1":
+		kUsed = big64(1)
+		rd = newScript(c, kBlock(w, kUsed, fb))
+	case "k=n-1":
+		kUsed = sub(N, one)
+		rd = newScript(c, kBlock(w, kUsed, fb))
+	case "first=0":
+		rd, nblocks = newScript(c, kBlock(w, big64(0), fb), kBlock(w, k1, fb)), 2
+	case "first>=n":
+		// a block in [n, 2^bitlen(n)): N itself, the top of the interval, or a random member
+		top := new(big.Int).Lsh(one, uint(w.OrderBits()))
+		bad := new(big.Int).Set(N)
+		switch c.R.Intn(3) {
+		case 0:
+			bad = sub(top, one)
+		case 1:
+			bad = add(N, c.R.BigBelow(sub(top, N)))
 		}
+		rd, nblocks = newScript(c, kBlock(w, bad, fb), kBlock(w, k1, fb)), 2
+	default:
+		// first block k1 with the digest that makes the standard discard it, then k2
+		x1 := w.BaseMul(k1).X
 		var ei *big.Int
 		switch plant {
 		case "r=0":
@@ -280,17 +339,13 @@ func legacyCase(c *mon.Case, lc lcurve, sg lsigner, dk, plant string) {
 			ei = sub(mul(k1, new(big.Int).ModInverse(d, N)), x1)
 		}
 		ei.Mod(ei, N)
-		e = fill(ei, olen)
-		in = lin{lc: lc, pub: &k.PublicKey, d: d, e: e}
-		rd = newScript(c, fill(k1, olen), fill(k2, olen))
-		defer func() {
-			if rd.Consumed() == 2*olen {
-				c.Event("retry_observed/"+plant, 1)
-			}
-		}()
+		e = w.DigestOf(ei)
+		in = lin{k: k, e: e}
+		kUsed = k2
+		rd, nblocks = newScript(c, kBlock(w, k1, fb), kBlock(w, k2, fb)), 2
 	}
 	var sig []byte
-	if !c.Call(sg.name+" on "+lc.name, func() { sig, err = sg.run(rd, k, uid, msg, e) }) {
+	if !c.Call(sg.name+" on "+lc.name, func() { sig, err = sg.run(rd, k.priv, uid, msg, e) }) {
 		return
 	}
 	c.Event("sign_calls", 1)
@@ -299,20 +354,34 @@ func legacyCase(c *mon.Case, lc lcurve, sg lsigner, dk, plant string) {
 		return
 	}
 	if err != nil {
-		c.Fail("reject", "%s on %s failed with a valid key (d=%x): %v", sg.name, lc.name, d, err)
+		c.Fail("reject", "%s on %s failed with a valid key (d=%x), a working random source and plant %s: %v", sg.name, lc.name, d, plant, err)
 		return
 	}
 	c.Event("signatures", 1)
+	if rd.Consumed() == nblocks*olen {
+		c.Event("blocks_consumed_as_planted", 1)
+		if nblocks > 1 {
+			c.Event("retry_observed/"+plant, 1)
+		}
+	}
+	// observation only: with the scripted k the standard's procedure gives one signature
+	if r0, s0, e0 := w.Sign(d, kUsed, w.DigestToInt(in.e)); e0 == nil && bytes.Equal(sig, sm2sig.EncodeDER(r0, s0)) {
+		c.Event("signature_equals_reference_signer_with_scripted_k", 1)
+	}
 	want := ljudge(c, "honest signature of "+sg.name, in, sig)
 	if want != sm2sig.Accept {
 		c.Detail("signature", sig)
-		c.Fail("mismatch", "honest signature of %s on %s fails the oracle's equation (%s): sig=%x digest=%x d=%x", sg.name, lc.name, want, sig, e, d)
+		c.Fail("mismatch", "honest signature of %s on %s fails the oracle's equation (%s): sig=%x digest=%x d=%x", sg.name, lc.name, want, sig, in.e, d)
 		return
 	}
 	c.Event("honest_signatures_accepted_by_reference", 1)
+	if plant != "none" {
+		return // the accept-set sweep below belongs to the unplanted case of every signer and curve
+	}
 	r, s, _ := sm2sig.ParseDER(sig)
 
-	// a small accept-set sweep on the legacy verifier
+	// a small accept-set sweep on the legacy verifier (c06.ledge holds the systematic one)
+	topBit := new(big.Int).Lsh(one, uint(w.OrderBits()-1))
 	for _, v := range []struct {
 		name string
 		r, s *big.Int
@@ -320,7 +389,7 @@ func legacyCase(c *mon.Case, lc lcurve, sg lsigner, dk, plant string) {
 		{"r+1", add(r, one), s}, {"s-1", r, sub(s, one)}, {"r:=0", big64(0), s}, {"s:=0", r, big64(0)}, {"r:=n", N, s}, {"s:=n", r, N},
 		{"r+n", add(r, N), s}, {"s+n", r, add(s, N)}, {"-r", new(big.Int).Neg(r), s}, {"-s", r, new(big.Int).Neg(s)},
 		{"n-r", sub(N, r), s}, {"swapped", s, r}, {"(n-s,s): t=0", sub(N, s), s}, {"(r,n-r): t=0", r, sub(N, r)},
-		{"r^2^255", new(big.Int).Xor(r, new(big.Int).Lsh(one, 255)), s},
+		{"r^top bit", new(big.Int).Xor(r, topBit), s},
 	} {
 		if v.r.Cmp(r) == 0 && v.s.Cmp(s) == 0 {
 			continue
@@ -336,48 +405,46 @@ func legacyCase(c *mon.Case, lc lcurve, sg lsigner, dk, plant string) {
 		{"trailing zero byte", append(append([]byte{}, sig...), 0)},
 		{"truncated by one", sig[:len(sig)-1]},
 		{"r with extra leading zero", sm2sig.TLV(0x30, append(sm2sig.TLV(2, append([]byte{0}, ri...)), sm2sig.TLV(2, si)...))},
-		{"long-form SEQUENCE length", append([]byte{0x30, 0x81, byte(len(body))}, body...)},
+		{"long-form SEQUENCE length", append(append([]byte{0x30}, nonMinimalLen(len(body), 1+len(body)/256)...), body...)},
 		{"r, s, NULL", sm2sig.TLV(0x30, append(append([]byte{}, body...), 5, 0))},
 	} {
+		if bytes.Equal(v.b, sig) {
+			continue
+		}
 		ljudge(c, "DER edit: "+v.name, in, v.b)
 	}
-	e2 := append([]byte{}, e...)
-	e2[c.R.Intn(32)] ^= 1 << uint(c.R.Intn(8))
-	ljudge(c, "other digest", lin{lc: lc, pub: in.pub, e: e2}, sig)
-	ljudge(c, "other message", lin{lc: lc, pub: in.pub, hasMsg: true, uid: uid, msg: append(append([]byte{}, msg...), 1),
-		e: sm2sig.E(zaGeneric(lc.c.Params(), k.X, k.Y, effUID(uid)), append(append([]byte{}, msg...), 1))}, sig)
+	e2 := append([]byte{}, in.e...)
+	if bit := c.R.Intn(min(len(e2)*8, w.OrderBits())); true { // a bit the conversion keeps
+		e2[bit/8] ^= 0x80 >> uint(bit%8)
+	}
+	ljudge(c, "other digest", lin{k: k, e: e2}, sig)
+	if in.hasMsg {
+		m2 := append(append([]byte{}, msg...), 1)
+		em2, _ := w.MessageDigest(k.P, effUID(uid), m2)
+		ljudge(c, "other message", lin{k: k, hasMsg: true, uid: uid, msg: m2, e: em2}, sig)
+	}
 
 	// exceptional final additions (the owner of d can build them)
 	if d.Cmp(one) > 0 && add(d, one).Cmp(N) < 0 {
 		inv := func(a *big.Int) *big.Int { return new(big.Int).ModInverse(new(big.Int).Mod(a, N), N) }
-		lim := N
-		if lim.Cmp(two56) > 0 {
-			lim = two56 // r must also be expressible as a 32-byte digest below
-		}
-		rr := add(c.R.BigBelow(sub(lim, one)), one)
-		ol := (N.BitLen() + 7) / 8
+		rr := add(c.R.BigBelow(sub(N, one)), one)
 		// [s]G = -[t]P : no x1 exists, whatever the digest
 		sInf := new(big.Int).Mod(new(big.Int).Neg(mul(mul(rr, d), inv(add(one, d)))), N)
 		if sInf.Sign() != 0 {
 			c.Event("final_add_is_infinity", 2)
-			ljudgeRS(c, "pair whose [s]G+[t]P is the point at infinity, digest = r", lin{lc: lc, pub: in.pub, e: fill(rr, 32)}, rr, sInf)
-			ljudgeRS(c, "pair whose [s]G+[t]P is the point at infinity, random digest", lin{lc: lc, pub: in.pub, e: c.R.Bytes(32)}, rr, sInf)
+			if want := ljudgeRS(c, "pair whose [s]G+[t]P is the point at infinity, digest = r", lin{k: k, e: w.DigestOf(rr)}, rr, sInf); want != sm2sig.BadPoint {
+				c.Inconclusive("expected the infinity verdict from the oracle, got %s", want)
+			}
+			ljudgeRS(c, "pair whose [s]G+[t]P is the point at infinity, random digest", lin{k: k, e: c.R.Bytes(32)}, rr, sInf)
 		}
 		// [s]G = [t]P : doubling; the digest is solved for
 		sDbl := new(big.Int).Mod(mul(mul(rr, d), inv(sub(one, d))), N)
 		if sDbl.Sign() != 0 && new(big.Int).Mod(add(rr, sDbl), N).Sign() != 0 {
-			var x1 *big.Int
-			if lc.isSM2 {
-				x1 = ec.BaseMul(sDbl).X
-				x1 = ec.Double(ec.Point{X: x1, Y: ec.BaseMul(sDbl).Y}).X
-			} else {
-				a, b := lc.c.ScalarBaseMult(sDbl.Bytes())
-				x1, _ = lc.c.Double(a, b)
-			}
-			ed := new(big.Int).Mod(sub(rr, x1), N)
-			c.Event("final_add_is_doubling", 1)
-			if w := ljudgeRS(c, "pair whose final addition is a doubling", lin{lc: lc, pub: in.pub, e: fill(ed, ol)}, rr, sDbl); w != sm2sig.Accept {
-				c.Inconclusive("oracle refuses the constructed doubling pair: %s", w)
+			if ed, _, ok := w.SolveE(k.P, rr, sDbl); ok {
+				c.Event("final_add_is_doubling", 1)
+				if want := ljudgeRS(c, "pair whose final addition is a doubling", lin{k: k, e: w.DigestOf(ed)}, rr, sDbl); want != sm2sig.Accept {
+					c.Inconclusive("oracle refuses the constructed doubling pair: %s", want)
+				}
 			}
 		}
 	}
